@@ -889,7 +889,7 @@ func runPQStress(rep *Report, r *rand.Rand, n int) {
 	for i := 0; i < 3+n/20; i++ {
 		seed := r.Int63()
 		cfg := pqConfigs()[i%len(pqConfigs())]
-		cfg.MaxSize = 0 // the file keeps growing: every flush links pages past the previous end of the file
+		cfg.MaxSize = 0             // the file keeps growing: every flush links pages past the previous end of the file
 		cfg.WriteBuffer = 64 * 1024 // one commit per round: only the explicit Flush writes to the file
 		var fails []string
 		if !watchdog(60*time.Second, func() { fails = pqHandover(seed, cfg, 25) }) {
